@@ -5,7 +5,7 @@
 (* strings) and the bytes the real crate produced; the predicates of       *)
 (* C06-C10, C15, C16 and C18 are evaluated on the observed bytes.          *)
 (***************************************************************************)
-EXTENDS AmlEnc, AmlDec, TraceCommon
+EXTENDS AmlEnc, AmlDec, Digest, TraceCommon
 
 VARIABLE l
 TInit == l = 1
@@ -155,7 +155,17 @@ TStrs ==
                IN /\ Judge("C16", badenc = {}, I("C16", "uuid", badenc))
                   /\ Judge("C16", notref = {}, I("C16", "malformed_uuid_not_refused", notref))
 
-TNext == l <= NRec /\ l' = l + 1 /\ (TAml \/ TAlt \/ TPkg \/ TInts \/ TStrs)
+---------------------------------------------------------------------------
+\* exhaustive sweeps by digest tabulation (Digest.tla): the digests of the real encoder's outputs over a chunk must
+\* be the digests of the specification's outputs, for every carrier type the harness used
+SweepProp == [pkglen_incl |-> "C07", pkglen_excl |-> "C07", u32 |-> "C08", eisa |-> "C16"]
+TSweep ==
+  /\ E.ev = "sweep"
+  /\ Judge(SweepProp[E.what], ~E.panic /\ LET d == SpecDigest(E.what, E.base, E.n) IN \A i \in 1..Len(E.ds) : E.ds[i] = d,
+           [l |-> l, run |-> E.run, what |-> "sweep_digest", kind |-> E.what, base |-> E.base, n |-> E.n,
+            sig |-> "sweep/" \o E.what])
+
+TNext == l <= NRec /\ l' = l + 1 /\ (TAml \/ TAlt \/ TPkg \/ TInts \/ TStrs \/ TSweep)
 TSpec == TInit /\ [][TNext]_l
 Done == DoneMsg(l)
 =============================================================================
